@@ -1560,3 +1560,55 @@ def rule_max1_scan(mod_unused, rep, config="pthread"):
                     continue
                 rep.check(not bad, "MAX1-SCAN", "%s#result@%d/%d" % (nm, nloop, q.i), "the recorded position is the counter itself",
                           "the position recorded in the loop at %s is not the loop counter (which is the 1-based index of the component just compared)" % ph.loc, ph.loc, nm)
+
+
+# ---------------------------------------------------------------------------------------------------------------------------------
+# LACON-ALT (C12): the alternating-sign test vector of the norm estimator
+# ---------------------------------------------------------------------------------------------------------------------------------
+def rule_lacon_altvector(mod_unused, rep, config="pthread"):
+    from .. import build as _b, ir as _ir
+    rep.rule("LACON-ALT", "?lacon_ (Hager/Higham): the final stage multiplies inv(A) with x_k = (-1)^k (1 + k/(n-1)), k = 0..n-1, and scales the result by 2/(3n) - a lower bound only "
+             "for exactly these weights (they rise from 1 to 2). Analysed on the four units after promotion of the written-before-read f2c statics (sa/promote): in the loop that "
+             "stores the vector, the integer numerator of the quotient equals the index polynomial of the stored component (x[i-1] gets (i-1)/(n-1), x[i] gets i/(n-1)), and the "
+             "denominator is n - 1: a numerator shifted against the index over-weights the vector and the estimate can exceed the true norm", floor=4)
+    try:
+        um = _ir.Module(_b.build_units(["slacon.c", "dlacon.c", "clacon.c", "zlacon.c"], config=config))
+    except Exception as e:
+        rep.brk("ANALYSIS-BROKEN LACON-ALT: %s" % e)
+        return
+    for prec in "sdcz":
+        f = um.funcs.get("%slacon_" % prec)
+        if f is None or not f.blocks:
+            rep.brk("ANALYSIS-BROKEN LACON-ALT: %slacon_ not found" % prec)
+            continue
+        rep.scope([f.name])
+        P = _Poly(f)
+        kx = f.pindex("x"); kn = f.pindex("n")
+        found = 0
+        for d in f.insts():
+            if d.op != "fdiv":
+                continue
+            num = strip_casts(f, d.ops[0]); den = strip_casts(f, d.ops[1])
+            if not (num[0] == "v" and f.inst[num[1]].op == "sitofp" and den[0] == "v" and f.inst[den[1]].op == "sitofp"):
+                continue
+            pn = P.of(f.inst[num[1]].ops[0]); pd = P.of(f.inst[den[1]].ops[0])
+            # the store into x[] this quotient flows into (same block)
+            st = None
+            for s in d.bb.insts:
+                if s.op == "store" and s.pos > d.pos and any(p and p[0] == ("A", kx) for p in f.addr_paths(s)):
+                    from ..ir import expr_insts
+                    if any(z.i == d.i for z in expr_insts(f, s.ops[0], limit=60)):
+                        st = s
+                        break
+            if st is None:
+                continue
+            found += 1
+            pidx = P.of(gep_index_first(f, st.ops[1]))
+            nsym = [t for k in pd for t in k]
+            okden = len(nsym) == 1 and pd == {(nsym[0],): 1, (): -1}
+            oknum = (pn == pidx)
+            rep.check(oknum and okden, "LACON-ALT", "%s#weights" % f.name, "component k is weighted 1 + k/(n-1)",
+                      "the component stored at %s has index %s but the quotient's numerator is %s (denominator %s): the weights are not 1 + k/(n-1) for k = 0..n-1, the 2/(3n) "
+                      "normalisation no longer gives a lower bound" % (st.loc, pfmt(pidx), pfmt(pn), pfmt(pd)), st.loc, f.name)
+        if not found:
+            rep.brk("ANALYSIS-BROKEN LACON-ALT: the weight quotient was not found in %s" % f.name)
